@@ -673,7 +673,8 @@ Fixpoint ceval (m : cmode) (tys : list ity) (vals : list Z) (e : cexpr) : option
       match ctypeof tys a, ctypeof tys b with
       | Some ta, Some tb =>
           obind (ceval m tys vals c) (fun vc =>
-            omap (wrap (c_arith_type ta tb)) (ceval m tys vals (if vc =? 0 then b else a)))
+            omap (wrap (c_arith_type ta tb))
+                 (if vc =? 0 then ceval m tys vals b else ceval m tys vals a))
       | _, _ => None
       end
   end.
